@@ -4,7 +4,7 @@
 use super::doc::{can_abut, layout, Rendered, Tok};
 
 /// Fillers used as layout deviations ("" only where the neighbours do not fuse).
-pub const FILLERS: [&str; 16] = [
+pub const FILLERS: [&str; 17] = [
     "",
     "  ",
     "\t",
@@ -21,6 +21,7 @@ pub const FILLERS: [&str; 16] = [
     " /* a **/ ",
     "\u{2028}",
     " // é日\n  ",
+    "//c\r",
 ];
 
 /// Fillers with adversarial content for totality (C01).
@@ -124,6 +125,12 @@ pub fn one_deviation(toks: &[Tok], fillers: &[&str]) -> Vec<Layout> {
             }
         }
     }
+    // a line comment as the very last thing of the file, without a line end
+    v.push(Layout {
+        name: "line comment at end of file without newline".into(),
+        dev: vec![(toks.len(), " // end".to_string())],
+        base: None,
+    });
     v
 }
 
